@@ -15,6 +15,10 @@ Theorem c18_step_bounded_partial : C18_step_bounded.
 Proof. exact c18_step_bounded_proof. Qed.
 Print Assumptions c18_step_bounded_partial.
 
+Theorem c18_step_purge_or_keep_partial : C18_step_purge_or_keep.
+Proof. exact c18_step_purge_or_keep_proof. Qed.
+Print Assumptions c18_step_purge_or_keep_partial.
+
 Theorem c18_step_retained_partial : C18_step_retained.
 Proof. exact c18_step_retained_proof. Qed.
 Print Assumptions c18_step_retained_partial.
@@ -46,6 +50,10 @@ Print Assumptions c18_run_retained_partial.
 Theorem c18_run_received_found_partial : C18_run_received_found.
 Proof. exact c18_run_received_found_proof. Qed.
 Print Assumptions c18_run_received_found_partial.
+
+Theorem c18_run_received_at_lib_partial : C18_run_received_at_lib.
+Proof. exact c18_run_received_at_lib_proof. Qed.
+Print Assumptions c18_run_received_at_lib_partial.
 
 Theorem c18_run_lookups_total : C18_run_lookups_total.
 Proof. exact c18_run_lookups_total_proof. Qed.
